@@ -35,6 +35,14 @@ type Oblig struct {
 	Model  string
 	prel   *Prelude
 	nline  int // number of body lines of the prelude that are in scope
+	relaxed   bool // query without quantified modelling facts
+	candidate bool // Model is a candidate from the relaxed query
+	// for replay
+	fn        *ssa.Function
+	clause    *SExpr
+	heapNames map[string]Sort // heap universe of the encoding (initial versions are <name>_v0)
+	paramTerms []Term
+	sorts     *Sorts
 }
 
 // Prelude accumulates the SMT context of one function encoding.
